@@ -489,6 +489,101 @@ var cwSizes = []int{0, 1, 60, 62, 63, 64, 124, 125, 126, 200}
 // buffered writers depends on the buffer size: the tiers change at 65539 / 65543 bytes)
 var cwBufs = []int{0, 8, 16, 127, 131, 133, 200, 4096, 65539, 65540, 65543, 65544, 65550, 131072, 1 << 20}
 
+// subAfterFailure: a control frame whose payload source FAILS in the middle (the peer died, a read error) is followed -
+// on another connection of the same side, same goroutine - by a complete ping / close: the reply to the second one is
+// what it would be had the first never happened. Whatever the handlers keep between calls (pooled writers, buffers)
+// must not carry over.
+func subAfterFailure() mon.Sub {
+	return mon.Sub{
+		Name: "after-failed-control-frame", Required: true,
+		N: func(t string) int {
+			if t == "thorough" {
+				return 20000
+			}
+			return 1200
+		},
+		Do: func(c *mon.C) {
+			side := []ref.Side{ref.SideServer, ref.SideClient}[c.I%2]
+			st := wsx.State(side, false, false)
+			L := []int{125, 100, 60, 126 - c.I%50, 2}[c.I/2%5]
+			k := []int{1, L / 2, L - 1, 0}[c.I/10%4]
+			if k >= L {
+				k = L - 1
+			}
+			M := []int{125, 124, 100, 125 - k + 1, 126 - L, 64, 1}[c.I/40%7]
+			if M < 1 || M > 125 {
+				M = 125
+			}
+			firstOp := []byte{ref.OpPing, ref.OpPing, ref.OpPong, ref.OpClose}[c.I/7%4]
+			first := make([]byte, L)
+			c.Rng.Read(first)
+			if firstOp == ref.OpClose {
+				first[0], first[1] = 0x03, 0xe8
+				for i := 2; i < L; i++ {
+					first[i] = 'a' + byte(i%26)
+				}
+			}
+			det := map[string]interface{}{"side": sideName(side), "first_frame": fmt.Sprintf("op=%x announcing %d bytes, source fails after %d", firstOp, L, k), "second_ping_bytes": M}
+			// 1. the frame that fails (through the handler, or through ReadData on a cut connection)
+			var junk bytes.Buffer
+			failing := xport.NewCutter(first, xport.Plan{Kind: "whole"}, k, xport.FaultKinds[c.I%len(xport.FaultKinds)].Err)
+			if c.I/3%2 == 0 {
+				wsutil.ControlHandler{Src: failing, Dst: &junk, State: st, DisableSrcCiphering: true}.Handle(ws.Header{Fin: true, OpCode: ws.OpCode(firstOp), Length: int64(L)})
+			} else {
+				f := ref.Frame{H: ref.Header{Fin: true, Op: firstOp, Masked: side == ref.SideServer}, Payload: first}
+				if f.H.Masked {
+					c.Rng.Read(f.H.Mask[:])
+				}
+				enc := f.Encode()
+				cutAt := len(enc) - (L - k)
+				rw := xport.RW{Reader: xport.NewCutter(enc, xport.Plan{Kind: "whole"}, cutAt, xport.FaultKinds[c.I%len(xport.FaultKinds)].Err), Writer: &junk}
+				wsutil.ReadData(rw, st)
+			}
+			// 2. a complete ping on another connection
+			c.Count(1)
+			second := make([]byte, M)
+			c.Rng.Read(second)
+			var out bytes.Buffer
+			var err error
+			entry := []string{"Handle", "HandleControlMessage", "ReadData"}[c.I/5%3]
+			switch entry {
+			case "Handle":
+				err = wsutil.ControlHandler{Src: bytes.NewReader(second), Dst: &out, State: st, DisableSrcCiphering: true}.Handle(ws.Header{Fin: true, OpCode: ws.OpPing, Length: int64(M)})
+			case "HandleControlMessage":
+				err = wsutil.HandleControlMessage(&out, st, wsutil.Message{OpCode: ws.OpPing, Payload: append([]byte(nil), second...)})
+			case "ReadData":
+				pf := ref.Frame{H: ref.Header{Fin: true, Op: ref.OpPing, Masked: side == ref.SideServer}, Payload: second}
+				if pf.H.Masked {
+					c.Rng.Read(pf.H.Mask[:])
+				}
+				df := ref.Frame{H: ref.Header{Fin: true, Op: ref.OpBinary, Masked: side == ref.SideServer}, Payload: []byte("data")}
+				if df.H.Masked {
+					c.Rng.Read(df.H.Mask[:])
+				}
+				var p []byte
+				p, _, err = wsutil.ReadData(xport.RW{Reader: bytes.NewReader(append(pf.Encode(), df.Encode()...)), Writer: &out}, st)
+				if err == nil && string(p) != "data" {
+					err = fmt.Errorf("message behind the ping read as %q", p)
+				}
+			}
+			det["entry"], det["err"] = entry, fmt.Sprint(err)
+			if err != nil {
+				c.Fail("after-failure/error/"+entry, fmt.Sprintf("a complete %d-byte ping handled after a control frame whose source had failed: %v", M, err), det)
+				return
+			}
+			f, ok := checkReplyFrame(c, "after-failure/"+entry, side, out.Bytes(), det)
+			if !ok {
+				return
+			}
+			if f.H.Op != ref.OpPong || !bytes.Equal(f.Payload, second) {
+				c.Fail("after-failure/content/"+entry, "the reply is not a pong carrying the ping's payload", det)
+				return
+			}
+			c.Classf("after-failure|%s|%s|first=%x", entry, sideName(side), firstOp)
+		},
+	}
+}
+
 func subControlWriter() mon.Sub {
 	nseq := 1
 	for i := 0; i < 4; i++ {
@@ -643,6 +738,6 @@ func main() {
 		Rule: "cases: ping and pong x every payload length 0..125 x both sides x 13 entry points (ControlHandler.Handle given the header of a frame the application already unmasked in place; ControlFrameHandler as OnIntermediate and the ReadData helpers also between the halves of a character split across two fragments of a TEXT message under UTF-8 checking; ControlHandler.Handle with masked source / pre-unmasked source, HandlePing/Pong/Close, ControlFrameHandler in-line and as OnIntermediate, HandleControlMessage and its Client/Server shortcuts, ReadData in-line) under varied source chunk plans; 0-9 pings/pongs (payloads 0..125) in front of and between the 2-4 fragments of one message collected by ReadMessage and answered afterwards with HandleControlMessage (every collected payload intact when answered, one echoing pong per ping); close: all 65536 codes x valid/invalid reasons x both sides (through Handle in quick, spread over all entry points in thorough) plus empty, 1-byte, longest-reason and 29 boundary codes through every entry point; " +
 			"ControlWriter: both constructors x 8 buffers x both sides x 3 opcodes x ALL write-size sequences of <= 4 writes over {0,1,60,62,63,64,124,125,126,200} x flush positions. Replies are parsed by the reference parser and checked against the peer's header rules, ws.CheckHeader, the close-payload classes and the expected content; distinct = (kind, entry, side, length/plan/code range).",
 		Assumptions: []string{"for codes the statement leaves open (1012-1014, >= 5000) either echo or 1002 is accepted but reply and returned error must agree", "a ControlWriter is reusable after Flush (limit counted per control frame)"},
-		Subs:        []mon.Sub{subPingPong(), subCloseAllCodes(), subCloseEntries(), subControlWriter(), subInterleaved()},
+		Subs:        []mon.Sub{subPingPong(), subCloseAllCodes(), subCloseEntries(), subControlWriter(), subInterleaved(), subAfterFailure()},
 	})
 }
